@@ -440,7 +440,7 @@ impl SingleByteEncoder {
                                 let high_bits = non_ascii & 0xFC00u16;
                                 if high_bits == 0xD800u16 {
                                     // high surrogate
-                                    if converted + 1 == length {
+                                    if converted + 1 == src.len() {
                                         // End of buffer. This surrogate is unpaired.
                                         return (
                                             EncoderResult::Unmappable('\u{FFFD}'),
